@@ -154,7 +154,7 @@ class Unit:
                     curdir = None
                     continue
                 if kw in ('with', 'with_template'):
-                    if curdir is None or curdir.kind not in ('rw', 'mutant'):
+                    if curdir is None or curdir.kind not in ('rw', 'mutant', 'slice'):
                         raise Maintenance('%s:%d: //@with without //@rw' % (self.path, ln))
                     curdir.with_lines = []
                     if kw == 'with_template':
@@ -339,6 +339,8 @@ class Unit:
                     else:
                         name = a
                 item = X.rewrite(item, d.text(), d.with_text(self.templates), count, d.line, log, name, nth=nth)
+            elif d.kind == 'slice':
+                item = X.slice_item(item, d.text(), d.with_text(self.templates), d.line, log, (d.arg.split() or ['R15'])[0])
         kind = blk.path.split(' :: ')[-1].split()[0]
         contracted = False
         if kind == 'fn':
